@@ -109,7 +109,31 @@ CORNERS = [
      'R': [['V0', [['V1', 'V'], ['V1', 'V'], ['V1', 'V'], ['V1', 'V']]], ['V1', [['a', 'T']]], ['V1', []]], 'S': 'V0', 'eps': 'ε'},
     {'kind': 'cfg', 'V': ['V0', 'V1'], 'Sigma': ['a', 'b'],
      'R': [['V0', [['a', 'T'], ['V1', 'V'], ['b', 'T']]], ['V1', [['a', 'T'], ['V1', 'V'], ['b', 'T']]], ['V1', [['V1', 'V']]]], 'S': 'V0', 'eps': 'ε'},
+    # empty languages: the start variable has only unit rules / a unit cycle / no rule at all
+    {'kind': 'cfg', 'V': ['V0'], 'Sigma': ['a'], 'R': [['V0', [['V0', 'V']]]], 'S': 'V0', 'eps': 'ε'},
+    {'kind': 'cfg', 'V': ['V0', 'V1', 'V2'], 'Sigma': ['a'], 'R': [['V0', [['V1', 'V']]], ['V1', [['V2', 'V']]], ['V2', [['V1', 'V']]]], 'S': 'V0', 'eps': 'ε'},
+    {'kind': 'cfg', 'V': ['V0', 'V1'], 'Sigma': ['a'], 'R': [['V1', [['a', 'T']]]], 'S': 'V0', 'eps': 'ε'},
+    {'kind': 'cfg', 'V': ['V0'], 'Sigma': ['a'], 'R': [], 'S': 'V0', 'eps': 'ε'},
+    # a one-letter language beside an unreachable long rule with the same letter
+    {'kind': 'cfg', 'V': ['V0', 'V1'], 'Sigma': ['a', 'b'], 'R': [['V0', [['a', 'T']]], ['V1', [['a', 'T'], ['V1', 'V'], ['b', 'T']]], ['V1', [['a', 'T'], ['b', 'T']]]], 'S': 'V0', 'eps': 'ε'},
     # useless / non-productive variables
     {'kind': 'cfg', 'V': ['V0', 'V1', 'V2'], 'Sigma': ['a'],
      'R': [['V0', [['a', 'T']]], ['V0', [['V1', 'V'], ['a', 'T']]], ['V1', [['V1', 'V'], ['a', 'T']]], ['V2', [['a', 'T'], ['a', 'T']]]], 'S': 'V0', 'eps': 'ε'},
 ]
+
+
+def wide_cfg(rng):
+    """A simple-format grammar (one or two single-letter variables) with long, nullable right-hand sides: its Chomsky
+    normal form needs dozens of fresh variables (more than the 26 letters)."""
+    V = ['V0'] + (['V1'] if rng.random() < 0.4 else [])
+    T = list('ab'[:rng.randint(1, 2)])
+    R = []
+    for _ in range(rng.randint(2, 3)):
+        L = rng.randint(5, 7)
+        R.append([rng.choice(V), [([rng.choice(V), 'V'] if i % 2 else [rng.choice(T), 'T']) for i in range(L)]])
+    R.append(['V0', []])
+    if len(V) > 1:
+        R.append(['V1', [[rng.choice(T), 'T']]])
+    if not any(A == 'V0' and rhs for A, rhs in R):
+        R.insert(0, ['V0', [[T[0], 'T'], ['V0', 'V'], [T[-1], 'T'], ['V0', 'V'], [T[0], 'T'], ['V0', 'V']]])
+    return {'kind': 'cfg', 'V': V, 'Sigma': T, 'R': R, 'S': 'V0', 'eps': 'ε'}
